@@ -235,6 +235,16 @@ def specs(tier):
                      _gen_alpha(A.simplicial_static(), NESTED_S)[::2 if q else 1],
                      [A.gen_simplex_removals] if not q else [], invariants=[inv_twins], depth=depth, dev_bound=0,
                      namespace=histcheck.base_namespace),
+        # states whose labels / IDs have other types (tuple, string, float; tuple, string, numpy integer, frozenset, bytes)
+        explore.Spec("hypergraph-twins-exotic-labels", ["xgi.Hypergraph()", "xgi.Hypergraph({ET: [TA, SB], 0: [SB, FC], ES: [FC]})"],
+                     _gen_alpha(A.hypergraph_exotic(), []), [], invariants=[inv_twins], depth=1 if q else 2, dev_bound=0,
+                     namespace=histcheck.base_namespace),
+        explore.Spec("dihypergraph-twins-exotic-labels", ["xgi.DiHypergraph()", "xgi.DiHypergraph({ET: ([TA], [SB]), 0: ([SB, FC], [TA])})"],
+                     _gen_alpha(A.dihypergraph_exotic(), []), [], invariants=[inv_twins], depth=1 if q else 2, dev_bound=0,
+                     namespace=histcheck.base_namespace),
+        explore.Spec("simplicialcomplex-twins-exotic-labels", ["xgi.SimplicialComplex()", "xgi.SimplicialComplex({ET: [TA, SB], 5: [SB, FC]})"],
+                     _gen_alpha(A.simplicial_exotic(), []), [], invariants=[inv_twins], depth=1 if q else 2, dev_bound=0,
+                     namespace=histcheck.base_namespace),
     ]
 
 
